@@ -116,3 +116,65 @@ def l2(which, quick):
                 S.append((D(mode=mode, nj=2, pre=4, bs=1, cbthreads=cb, calls=[dict(n=8, closeat=3), dict(n=4)]), r))
                 S.append((D(mode=mode, nj=2, pre=6, bs=2, cbthreads=cb, calls=[dict(n=10, closeat=1), dict(n=4, closeat=0), dict(n=3)]), r))
     return S
+
+
+def models(which, quick):
+    """(name, must_hold, liveness, overrides) for specs/ParallelDesign.tla; the *_off entries switch one repair off and
+    must produce a counterexample (sensitivity of the model to that defect class)."""
+    M = []
+    if which == "C01":
+        M += [("base", True, False, {}), ("n5_b12", True, False, dict(N=5, BSizes={1, 2})), ("gen", True, False, dict(Mode="gen")),
+              ("all", True, False, dict(PRE=0)), ("nj3", True, False, dict(N=5, NJ=3, PRE=3))]
+        if not quick:
+            M += [("n6_b12", True, False, dict(N=6, BSizes={1, 2}, PRE=4)), ("n7", True, False, dict(N=7, PRE=3)),
+                  ("hostile", True, False, dict(N=4, SerialCb=False, AbortJoins=False, Mode="gen")),
+                  ("n6_nj3_b2", True, False, dict(N=6, NJ=3, PRE=6, BSizes={2}))]
+    elif which == "C04":
+        M += [("fail_2calls", True, False, dict(N=3, Fail={1}, Calls=2, FailCalls={1})),
+              ("iterfail_all", True, False, dict(N=3, PRE=0, IterFailAt=2, SerialCb=False)),
+              ("iterfail_pre", True, False, dict(N=4, PRE=2, IterFailAt=3, Calls=2, FailCalls={1})),
+              ("live_fail", True, True, dict(N=3, Fail={1})),
+              ("D1_off", False, False, dict(N=4, Fail={0}, Calls=2, FixReady=False, SerialCb=False)),
+              ("D8_off", False, False, dict(N=3, PRE=0, IterFailAt=2, FixD8=False, SerialCb=False)),
+              ("D12_off", False, False, dict(N=3, Fail={1}, Calls=2, FixCallId=False, AbortJoins=False)),
+              ("D7_off", False, False, dict(N=3, Fail={1}, Calls=2, FixD7=False, AbortJoins=False, SerialCb=False))]
+        if not quick:
+            M += [("fail_3calls", True, False, dict(N=3, Fail={1}, Calls=3, FailCalls={1, 2})),
+                  ("hostile_2calls", True, False, dict(N=4, Fail={2}, Calls=2, AbortJoins=False, SerialCb=False, Mode="gen", FailCalls={1})),
+                  ("unord_fail", True, False, dict(N=4, Mode="unordered", Fail={2}, Calls=2, FailCalls={1})),
+                  ("live_gen", True, True, dict(N=4, Mode="gen", BSizes={1, 2}))]
+    elif which == "C09":
+        M += [("look_n6", True, False, dict(N=6, PRE=2), ["Lookahead"]),
+              ("look_b12", True, False, dict(N=6, PRE=2, BSizes={1, 2}), ["Lookahead"]),
+              ("inflight", True, False, dict(N=5, PRE=2, KB=2), ["InFlightK"])]
+        if not quick:
+            M += [("look_n8_pre4", True, False, dict(N=8, PRE=4), ["Lookahead"]),
+                  ("D9_n10", False, False, dict(N=10, PRE=2), ["Lookahead"])]
+    elif which == "C16":
+        M += [("gen", True, False, dict(N=4, Mode="gen")), ("unord", True, False, dict(N=4, Mode="unordered")),
+              ("gen_2calls_close", True, False, dict(N=3, Mode="gen", Calls=2)),
+              ("live_unord", True, True, dict(N=3, Mode="unordered"))]
+        if not quick:
+            M += [("gen_b12", True, False, dict(N=5, Mode="gen", BSizes={1, 2})),
+                  ("unord_fail_2calls", True, False, dict(N=4, Mode="unordered", Fail={2}, Calls=2, FailCalls={1}))]
+    return M
+
+
+def conformance(which, quick):
+    """model-compatible L1 scenarios: (cfg, dfs limit) for code->design conformance; cfgs for design->code replay"""
+    lim = 60 if quick else 600
+    if which == "C01":
+        A = [D(mode=LIST, nj=2, pre=2, bs=1, calls=[dict(n=4)]), D(mode=GEN, nj=2, pre=4, bs=2, calls=[dict(n=6)]),
+             D(mode=LIST, nj=2, pre="all", bs=1, calls=[dict(n=4)])]
+    elif which == "C04":
+        A = [D(mode=LIST, nj=2, pre=2, bs=1, calls=[dict(n=4, fail=(1,)), dict(n=4)]),
+             D(mode=UNORD, nj=2, pre=2, bs=1, calls=[dict(n=4, fail=(2,)), dict(n=4)]),
+             D(mode=LIST, nj=2, pre=2, bs=2, calls=[dict(n=5, iterfail=3), dict(n=5)])]
+    elif which == "C09":
+        A = [D(mode=LIST, nj=2, pre=2, bs=1, calls=[dict(n=6)]), D(mode=GEN, nj=2, pre=4, bs=1, calls=[dict(n=6, fail=(1,))]),
+             D(mode=UNORD, nj=2, pre="all", bs=1, calls=[dict(n=5)])]
+    else:
+        A = [D(mode=GEN, nj=2, pre=2, bs=1, calls=[dict(n=4, cons="close"), dict(n=4)]),
+             D(mode=UNORD, nj=2, pre=2, bs=1, calls=[dict(n=4, cons="close"), dict(n=4)]),
+             D(mode=GEN, nj=2, pre="all", bs=1, calls=[dict(n=4)])]
+    return [(a, lim) for a in A], A
